@@ -30,10 +30,11 @@ Mixed1     == {<<Key("rsa2048", 1), Key("rsa4096", 1)>>, <<Key("rsa4096", 2), Ke
 Lists(rot) == (UNION {{[i \in 1..n |-> Key(c, s[i])] : s \in Sels(n)} : c \in ClsOf(rot), n \in NOf(rot)})
               \cup (IF rot = "cert_block_1" THEN Mixed1 ELSE {})
 DefaultEnc(rot, path) ==
-  IF rot = "srk_table_hab" THEN (CASE path = "rot" -> Enc("path", "ca.der") [] path = "cli" -> Enc("path", "ca.pem") [] OTHER -> Enc("obj", "ca"))
-  ELSE CASE path \in {"rkht", "rkht_parse", "rot", "pfr", "srk", "srk_parse"} -> Enc("obj", "pub")
-         [] path \in {"cli", "dc", "srk_cfg"} -> Enc("path", "pub.pem")
-         [] path \in {"certblock", "certblock_parse"} -> IF rot = "cert_block_1" THEN Enc("obj", "crt") ELSE Enc("obj", "pub")
+  IF rot = "srk_table_hab" THEN (CASE path = "rot" -> Enc("path", "ca.der") [] path = "cli" -> Enc("path", "ca.pem") [] path = "rot_table" -> Enc("bytes", "ca.pem")
+                                      [] OTHER -> Enc("obj", "ca"))
+  ELSE CASE path \in {"rkht", "rkht_parse", "rot", "pfr", "srk", "srk_parse", "rot_table", "keyhash"} -> Enc("obj", "pub")
+         [] path \in {"cli", "dc", "dc_parse", "srk_cfg"} -> Enc("path", "pub.pem")
+         [] path \in {"certblock", "certblock_parse", "certblock_fuses"} -> IF rot = "cert_block_1" THEN Enc("obj", "crt") ELSE Enc("obj", "pub")
          [] path = "certblock_cfg" -> IF rot = "cert_block_1" THEN Enc("path", "crt.der") ELSE Enc("path", "pub.pem")
 UsedMenu(path, n) == IF UsesUsed(path) THEN 1..n ELSE {0}
 Case(rot, ks, encs, path, used) == [rot |-> rot, keys |-> ks, encs |-> encs, path |-> path, used |-> used]
@@ -58,7 +59,7 @@ ClsB(rot) == IF Full THEN ClsOf(rot) ELSE ClsOf(rot) \cap {"rsa2048", "p256", "p
 SweepB == UNION {UNION {UNION {UNION {{Case(rot, FirstKeys(c, n), v, path, IF UsesUsed(path) THEN ((n + 1) \div 2) ELSE 0) : v \in Vectors(rot, path, n)}
                                       : path \in Paths(rot)} : n \in NB(rot)} : c \in ClsB(rot)} : rot \in RotTypes}
 \* quick tier: the tool paths that open an RSA PRIVATE key (signature provider) run with RSA-2048 only (loading is 0.1 - 0.4 s per key)
-Cheap(c) == Full \/ c.path \notin {"dc", "certblock_cfg"} \/ \A i \in 1..Len(c.keys) : c.keys[i].cls \notin {"rsa3072", "rsa4096"}
+Cheap(c) == Full \/ c.path \notin {"dc", "dc_parse", "certblock_cfg"} \/ \A i \in 1..Len(c.keys) : c.keys[i].cls \notin {"rsa3072", "rsa4096"}
 Cases == {c \in SweepA \cup SweepB : Legal(c) /\ Cheap(c)}
 
 \* ---------------------------------------------------------------- initial states
@@ -69,7 +70,7 @@ CaseInit == /\ mode = "case" /\ scen = 0 /\ done = FALSE /\ Init
                                                /\ hist = <<[a |-> "Compute", c |-> Extra[i], term |-> DocCase(Extra[i])]>>
 HistInit == /\ mode \in {"cb21", "cb1"} /\ Want(mode) /\ scen = 0 /\ done = FALSE /\ hist = <<>> /\ Init
 \* file scenarios: n files hold the first n keys of a class; one tool path reads them; files are rewritten with other keys
-FileScen == {s \in [rot : RotTypes, cls : Classes, n : 1..4, path : {"rkht", "rot", "cli", "pfr", "certblock_cfg", "dc", "srk_cfg"}, used : 0..4] :
+FileScen == {s \in [rot : RotTypes, cls : Classes, n : 1..4, path : {"rkht", "rot", "cli", "pfr", "certblock_cfg", "dc", "srk_cfg", "rot_table"}, used : 0..4] :
                /\ s.path \in Paths(s.rot) /\ s.cls \in ClsOf(s.rot) /\ s.n \in NOf(s.rot) /\ s.n \in {1, 2, 4}
                /\ s.used = (IF UsesUsed(s.path) THEN 1 ELSE 0)
                /\ (Full \/ s.cls \in {"rsa2048", "p256", "p384"})
@@ -125,22 +126,26 @@ GNext == \/ /\ Steps < Limit /\ (Cb21Next \/ Cb1Next \/ FilesNext)
 C0 == hist[1].c
 T0 == hist[1].term
 IsCase == mode = "case"
+IsValue == IsCase /\ C0.path \in ValuePaths(C0.rot)
 \* the length of the value is that of the documented hash
-TermLen == IsCase => T0.len = (CASE C0.rot = "srk_table_ahab_v2" -> 64 [] C0.rot = "cert_block_21" -> HashLen(HashOf(C0.keys[1].cls)) [] OTHER -> 32)
+TermLen == IsValue => T0.len = (CASE C0.rot = "srk_table_ahab_v2" -> 64 [] C0.rot = "cert_block_21" -> HashLen(HashOf(C0.keys[1].cls)) [] OTHER -> 32)
 \* PURE FUNCTION OF THE ORDERED KEY LIST: neither the used index, nor the tool path, nor the way a key is supplied enters
 \* the term (for SRK tables: as long as the documented CA flag of the record is the same)
 AltEncs == IF Full THEN AllEncs ELSE {Enc("obj", "pub"), Enc("path", "priv.der"), Enc("bytes", "crt.pem"), Enc("path", "ca.der")}
-Independent == IsCase =>
+Independent == IsValue =>
   /\ \A u \in 0..4 : DocCase([C0 EXCEPT !.used = u]) = T0
-  /\ \A p \in Paths(C0.rot) : DocCase([C0 EXCEPT !.path = p]) = T0
+  /\ \A p \in ValuePaths(C0.rot) : DocCase([C0 EXCEPT !.path = p]) = T0
   /\ \A i \in 1..Len(C0.keys) : \A e \in AltEncs :
         (IsSrk(C0.rot) => IsCa(e) = IsCa(C0.encs[i])) => DocCase([C0 EXCEPT !.encs[i] = e]) = T0
 \* ... and it does depend on the order and on every key
 Swap(s, i, j) == [s EXCEPT ![i] = s[j], ![j] = s[i]]
-OrderMatters == IsCase => \A i, j \in 1..Len(C0.keys) : C0.keys[i] # C0.keys[j] => DocCase([C0 EXCEPT !.keys = Swap(@, i, j)]) # T0
-KeyMatters == IsCase => \A i \in 1..Len(C0.keys) : DocCase([C0 EXCEPT !.keys[i] = Key(@.cls, 9)]) # T0
+\* the value is the hash of the table that `rot export` writes (cert block v2.1 with one key: of the key itself)
+HashOfTable == IsValue /\ ~(C0.rot = "cert_block_21" /\ Len(C0.keys) = 1) /\ C0.rot # "srk_table_hab" =>
+                 T0.op = "hash" /\ T0.arg = DocTable(C0.rot, C0.keys, Cas(C0))
+OrderMatters == IsCase /\ ~(C0.path = "rot_table" /\ C0.rot = "cert_block_21" /\ Len(C0.keys) = 1) => \A i, j \in 1..Len(C0.keys) : C0.keys[i] # C0.keys[j] => DocCase([C0 EXCEPT !.keys = Swap(@, i, j)]) # T0
+KeyMatters == IsCase /\ ~(C0.path = "rot_table" /\ C0.rot = "cert_block_21" /\ Len(C0.keys) = 1) => \A i \in 1..Len(C0.keys) : DocCase([C0 EXCEPT !.keys[i] = Key(@.cls, 9)]) # T0
 \* one key in a v2.1 block: the value is the hash of the key itself, not the hash of a one-entry table
-SingleKeyV21 == IsCase /\ C0.rot = "cert_block_21" /\ Len(C0.keys) = 1 => T0 = H(HashOf(C0.keys[1].cls), Cat(<<KeyA(C0.keys[1]), KeyB(C0.keys[1])>>))
+SingleKeyV21 == IsValue /\ C0.rot = "cert_block_21" /\ Len(C0.keys) = 1 => T0 = H(HashOf(C0.keys[1].cls), Cat(<<KeyA(C0.keys[1]), KeyB(C0.keys[1])>>))
 \* a v1 table always has four slots of 32 bytes; a v2.1 table n slots (none for one key); SRK tables: header + records
 TableLen == IsCase => DocTable(C0.rot, C0.keys, Cas(C0)).len =
    (LET n == Len(C0.keys)  c == C0.keys[1].cls IN
